@@ -998,8 +998,11 @@ package fosite
 // secret_ok: the presented secret matches the client's current hash or one of its rotated hashes.
 //@ pureiface fosite.Hasher.Compare
 //@ spec func secret_ok(h Hasher, ctx context.Context, c Client, secret []byte) bool = h.Compare(ctx, c.GetHashedSecret(), secret) == nil || (implements(c, ClientWithSecretRotation) && (exists k int :: 0 <= k && k < len(cast(c, ClientWithSecretRotation).GetRotatedHashes()) && h.Compare(ctx, cast(c, ClientWithSecretRotation).GetRotatedHashes()[k], secret) == nil))
+// secret_ok_n counts the successful secret checks (ghost).
+//@ ghost secret_ok_n : int
 //@ func (*Fosite).checkClientSecret
 //@   requires f != nil && client != nil && f.Config.GetSecretsHasher(ctx) != nil
+//@   sets secret_ok_n = old(secret_ok_n) + (result == nil ? 1 : 0)
 //@   ensures [C10.secret-current-or-rotated] (result == nil) == secret_ok(f.Config.GetSecretsHasher(ctx), ctx, client, clientSecret)
 //@   invariant loop#1 [C10.secret-current-or-rotated] err != nil && $i <= len(cc.GetRotatedHashes()) && (forall k int :: 0 <= k && k < $i ==> f.Config.GetSecretsHasher(ctx).Compare(ctx, cc.GetRotatedHashes()[k], clientSecret) != nil) && f.Config.GetSecretsHasher(ctx).Compare(ctx, client.GetHashedSecret(), clientSecret) != nil
 
@@ -1012,10 +1015,14 @@ package fosite
 //@ interface ClientManager.GetClient
 //@   ensures err == nil ==> result != nil && result == client_of[id] && result.GetID() == id
 //@   ensures err != nil ==> result == nil
+// jti_seen: the jtis the store remembers (unexpired). SetClientAssertionJWT is the atomic mark-if-absent: it succeeds
+// only for a jti that is not remembered, and remembers it.
+//@ ghost jti_seen : map[string]bool
 //@ interface ClientManager.ClientAssertionJWTValid
 //@ interface ClientManager.SetClientAssertionJWT
 //@   modifies jti_seen
-//@ ghost jti_seen : map[string]bool
+//@   ensures err == nil ==> !old(jti_seen[jti]) && jti_seen == upd(old(jti_seen), jti, true)
+//@   ensures err != nil ==> jti_seen == old(jti_seen)
 
 //@ func clientCredentialsFromRequest
 //@   requires r != nil
@@ -1051,12 +1058,16 @@ package fosite
 //@   let fsecret = old(formget(form, "client_secret"))
 //@   let m = cast(result, OpenIDConnectClient).GetTokenEndpointAuthMethod()
 //@   requires f != nil && r != nil && f.Store != nil && (forall c2 context.Context :: f.Config.GetSecretsHasher(c2) != nil)
-//@   modifies jti_seen
+//@   modifies jti_seen, secret_ok_n
 //@   ensures [C10.unknown-assertion-type] at != "" && at != clientAssertionJWTBearerType ==> err != nil && ekind(err) == "invalid_request"
 //@   ensures [C10.secret-or-public] at == "" && err == nil ==> result != nil && result == old(client_of)[cid] && (result.IsPublic() || secret_ok(f.Config.GetSecretsHasher(ctx), ctx, result, bytes(secret)))
 //@   ensures [C10.method-permits-transport] at == "" && err == nil && implements(result, OpenIDConnectClient) ==> (fid != "" && fsecret != "" ==> m == "client_secret_post") && (basic_ok(r) && basic_pass(r) != "" ==> m == "client_secret_basic") && (result.IsPublic() ==> m == "none")
 //@   ensures [C10.rejection-is-invalid-client-or-request] at == "" && err != nil ==> ekind(err) == "invalid_client" || ekind(err) == "invalid_request"
 //@   ensures [C10.no-state-change-on-secret-path] at == "" ==> jti_seen == old(jti_seen)
+//@   assert @call(SetClientAssertionJWT)#1 [C15.assertion-claims-checked] client != nil && client == client_of[clientID] && implements(client, OpenIDConnectClient) && cast(client, OpenIDConnectClient).GetTokenEndpointAuthMethod() == "private_key_jwt" && typeis(claims["iss"], string) && unbox(claims["iss"], string) == clientID && typeis(claims["sub"], string) && unbox(claims["sub"], string) == clientID && typeis(claims["jti"], string) && jti == unbox(claims["jti"], string) && len(jti) > 0
+//@   ensures [C15.assertion-jti-marked-once] at == clientAssertionJWTBearerType && err == nil ==> (exists j string :: len(j) > 0 && !old(jti_seen[j]) && jti_seen == upd(old(jti_seen), j, true))
+//@   ensures [C15.assertion-rejected-changes-at-most-its-jti] at == clientAssertionJWTBearerType && err != nil ==> jti_seen == old(jti_seen) || (exists j string :: !old(jti_seen[j]) && jti_seen == upd(old(jti_seen), j, true))
+//@   ensures [C15.assertion-authenticates-registered-client] at == clientAssertionJWTBearerType && err == nil ==> result != nil && implements(result, OpenIDConnectClient) && cast(result, OpenIDConnectClient).GetTokenEndpointAuthMethod() == "private_key_jwt"
 
 // ---------------------------------------------------------------- C10: the token endpoint refuses unauthenticated clients
 //@ pureiface fosite.TokenEndpointHandler.CanSkipClientAuth fosite.TokenEndpointHandler.CanHandleTokenEndpointRequest
@@ -1065,7 +1076,7 @@ package fosite
 //@   ensures authn == old(authn)
 //@ func (*Fosite).AuthenticateClient
 //@   requires f != nil && r != nil && f.Store != nil && (forall c2 context.Context :: f.Config.GetSecretsHasher(c2) != nil)
-//@   modifies jti_seen
+//@   modifies jti_seen, secret_ok_n
 //@   sets authn = upd(old(authn), r, err == nil ? result : old(authn[r]))
 //@ func NewRequest
 //@   ensures result != nil && fresh(result)
@@ -1143,3 +1154,56 @@ package fosite
 //@   requires request != nil && request.Form != nil
 //@   modifies request.RequestedScope
 //@   ensures err == nil && sameset(request.RequestedScope, RemoveEmpty(strings.Split(formget(request.Form, "scope"), " ")))
+
+// ---------------------------------------------------------------- C15: audience of a client assertion
+//@ func audienceMatchesTokenURL
+//@   ensures [C15.assertion-audience] typeis(claims["aud"], string) ==> result == (unbox(claims["aud"], string) == tokenURL)
+//@   ensures [C15.assertion-audience] !("aud" in claims) ==> !result
+//@   invariant loop#1 true
+//@ func audienceMatchesTokenURLs
+//@   ensures [C15.assertion-audience] len(tokenURLs) == 0 ==> !result
+//@   ensures [C15.assertion-audience] !("aud" in claims) ==> !result
+//@   ensures [C15.assertion-audience] typeis(claims["aud"], string) ==> result == insl(tokenURLs, unbox(claims["aud"], string))
+//@   invariant loop#1 [C15.assertion-audience] $i <= len(tokenURLs) && (typeis(claims["aud"], string) ==> (forall j int :: 0 <= j && j < $i ==> tokenURLs[j] != unbox(claims["aud"], string)))
+
+// ---------------------------------------------------------------- C15: the JWKS cache is keyed by the complete location
+// A key set cached for one jwks_uri must never answer for another: the cache key is the prefix plus the whole location.
+//@ func (*DefaultJWKSFetcherStrategy).Resolve
+//@   requires s != nil
+//@   modifies everything
+//@   assert @call(Get)#1 [C15.jwks-cache-keyed-by-location] cacheKey == defaultJWKSFetcherStrategyCachePrefix + location
+//@   assert @call(SetWithTTL)#1 [C15.jwks-cache-keyed-by-location] cacheKey == defaultJWKSFetcherStrategyCachePrefix + location
+
+// The provider's collaborators are wired once (checked: no store to these fields outside construction).
+//@ wiring Fosite : Store, Config
+
+// ---------------------------------------------------------------- C09: every registered introspector is consulted
+// A token is reported active only if no introspector rejected it (other than "not mine") and at least one accepted it.
+//@ ghost intro_calls : int
+//@ ghost intro_accepts : int
+//@ ghost intro_rejects : int
+//@ interface TokenIntrospector.IntrospectToken
+//@   modifies everything
+//@   ensures intro_calls == old(intro_calls) + 1 && intro_accepts == old(intro_accepts) + (err == nil ? 1 : 0) && intro_rejects == old(intro_rejects) + ((err != nil && !eis(err, ErrUnknownRequest)) ? 1 : 0)
+//@ func (*Fosite).IntrospectToken
+//@   requires f != nil
+//@   modifies everything
+//@   ensures [C09.every-introspector-consulted] err == nil ==> intro_calls == old(intro_calls) + len(old(f.Config.GetTokenIntrospectionHandlers(ctx))) && intro_rejects == old(intro_rejects) && intro_accepts > old(intro_accepts)
+//@   ensures [C09.inactive-returns-nothing] err != nil ==> result0 == "" && result1 == nil
+//@   ensures [C09.rejection-is-reported] intro_rejects > old(intro_rejects) ==> err != nil
+//@   invariant loop#1 [C09.every-introspector-consulted] $i <= len(pre(f.Config.GetTokenIntrospectionHandlers(ctx))) && intro_calls == old(intro_calls) + $i && intro_rejects == old(intro_rejects) && (found <==> intro_accepts > old(intro_accepts)) && intro_accepts >= old(intro_accepts)
+
+// ---------------------------------------------------------------- C09: who may ask
+//@ spec func bearer_of(r *http.Request) string
+//@ func AccessTokenFromRequest
+//@   trusted
+//@   ensures result == bearer_of(req)
+// NewIntrospectionRequest: the inspected token is looked at only for a caller that presented a different bearer access
+// token which this server reports active, or valid client credentials via HTTP Basic; an error answer is {active:false}.
+//@ func (*Fosite).NewIntrospectionRequest
+//@   requires f != nil && r != nil && session != nil && f.Store != nil && (forall c2 context.Context :: f.Config.GetSecretsHasher(c2) != nil)
+//@   modifies everything
+//@   assert @call(checkClientSecret)#1 [C09.caller-authenticated] bearer_of(r) == "" && basic_ok(r) && unesc_ok(basic_user(r)) && unesc_ok(basic_pass(r)) && client == client_of[unesc(basic_user(r))] && clientSecret == unesc(basic_pass(r))
+//@   assert @call(IntrospectToken)#2 [C09.caller-authenticated] (bearer_of(r) != "" && token != bearer_of(r) && intro_accepts > old(intro_accepts)) || (bearer_of(r) == "" && secret_ok_n > old(secret_ok_n))
+//@   ensures [C09.inactive-nothing-but-false] err != nil ==> result != nil && !cast(result, *IntrospectionResponse).Active && cast(result, *IntrospectionResponse).AccessRequester == nil && cast(result, *IntrospectionResponse).TokenUse == ""
+//@   ensures [C09.active-needs-accepted-token] err == nil ==> result != nil && cast(result, *IntrospectionResponse).Active && intro_accepts > old(intro_accepts)
